@@ -24,6 +24,7 @@ import (
 	"strconv"
 	"strings"
 	"sync"
+	"sync/atomic"
 	"time"
 
 	"i2psim.local/sim/engine"
@@ -642,6 +643,35 @@ func check(id, tier, repo string, writeEvidence bool) int {
 	newViol := 0
 	var knownLines, violLines, replayMisses []string
 	raceMinimised, freshMinimised := 0, 0
+	// replays of the plain build are independent of each other: run them side
+	// by side (a change that breaks a property in eighty ways should not take
+	// eighty process start-ups in a row)
+	type conf struct {
+		ok  bool
+		why string
+	}
+	pre := map[string]conf{}
+	{
+		var mu sync.Mutex
+		var wg sync.WaitGroup
+		sem := make(chan struct{}, 8)
+		for _, c := range classes {
+			if _, ok := known[id+"|"+c]; ok || strings.Contains(c, "/race/") {
+				continue
+			}
+			wg.Add(1)
+			go func(c string, v *engine.ViolationReport) {
+				defer wg.Done()
+				sem <- struct{}{}
+				ok, why := r.confirm(bin, v)
+				<-sem
+				mu.Lock()
+				pre[c] = conf{ok, why}
+				mu.Unlock()
+			}(c, m.viol[c])
+		}
+		wg.Wait()
+	}
 	for _, c := range classes {
 		v := m.viol[c]
 		if what, ok := known[id+"|"+c]; ok {
@@ -655,7 +685,13 @@ func check(id, tier, repo string, writeEvidence bool) int {
 				useBin, _ = r.build(true)
 			}
 		}
-		ok, why := r.confirm(useBin, v)
+		var ok bool
+		var why string
+		if p, done := pre[c]; done && useBin == bin {
+			ok, why = p.ok, p.why
+		} else {
+			ok, why = r.confirm(useBin, v)
+		}
 		if !ok {
 			// The script was minimised inside a process that had already executed
 			// many runs. If the violation needs state the library accumulated
@@ -792,12 +828,15 @@ func (r *runner) fanoutOne(bin string, from, to int, tag string, extraEnv []stri
 	return res
 }
 
+var confirmSeq atomic.Int64
+
 // confirm replays a minimised script in a fresh process.
 func (r *runner) confirm(bin string, v *engine.ViolationReport) (bool, string) {
 	if v.Replay == "" {
 		return false, "no replay file was written"
 	}
-	res := r.fanoutOne(bin, 0, 1, "confirm", append([]string{"SIM_REPLAY=" + v.Replay}, r.envFor(bin, "confirm")...), 5*time.Minute)
+	tag := fmt.Sprintf("confirm-%d", confirmSeq.Add(1))
+	res := r.fanoutOne(bin, 0, 1, tag, append([]string{"SIM_REPLAY=" + v.Replay}, r.envFor(bin, tag)...), 5*time.Minute)
 	if res == nil || res.Replayed == nil {
 		return false, "replay worker failed"
 	}
